@@ -27,6 +27,9 @@ import (
 	"fmt"
 	"hash/crc32"
 	"net"
+	"runtime"
+	"sort"
+	"strings"
 	"sync"
 	"sync/atomic"
 	"testing"
@@ -591,9 +594,13 @@ func udpTxCase(t *testing.T, id int, rep *vreport, rng *vrng, ci udpCipher, ds, 
 		}
 		var conv uint32
 		binary.Read(bytes.NewReader(rng.bytes(4)), binary.LittleEndian, &conv)
+		before := udpCountStacks("(*UDPSession).defaultReadLoop")
 		s, err = NewConn4(conv, srv.LocalAddr(), block, ds, ps, true, udpPlainConn{cc})
 		if err != nil {
 			t.Fatal(err)
+		}
+		for i := 0; i < 2000 && udpCountStacks("(*UDPSession).defaultReadLoop") <= before; i++ {
+			time.Sleep(100 * time.Microsecond) // its receive goroutine has taken the generic path
 		}
 		short = &udpShortWriter{c: cc, max: 1 + rng.intn(3)}
 		s.platform.batchConn = short
@@ -951,6 +958,266 @@ func udpOOBCase(t *testing.T, id int, rep *vreport, rng *vrng, ci udpCipher, ds,
 		rep.Nontrivial++
 	}
 }
+
+// ---------------------------------------------------------------- the batch loops against the model (coq/io)
+
+// scripted kernel: WriteBatch answers from a list (accept a prefix of n / fail), ReadBatch hands
+// out prepared batches and finally fails
+type udpScript struct {
+	mu      sync.Mutex
+	resp    []int // >0: accept that many; 0: error
+	wire    []int // ids (first payload byte pair) of the messages accepted, in order
+	calls   int
+	batches [][]udpScriptMsg
+	closeAt int // index of the ReadBatch call during which the session is closed (-1: never)
+	sess    *UDPSession
+	rcalls  int
+}
+
+type udpScriptMsg struct {
+	addr net.Addr
+	pl   []byte
+}
+
+func (w *udpScript) WriteBatch(ms []ipv4.Message, flags int) (int, error) {
+	w.mu.Lock()
+	defer w.mu.Unlock()
+	if w.calls >= len(w.resp) { // beyond the script (acknowledgements of the rx cases): accept everything
+		return len(ms), nil
+	}
+	r := w.resp[w.calls]
+	w.calls++
+	if r == 0 {
+		return 0, fmt.Errorf("scripted sendmmsg failure")
+	}
+	if r > len(ms) {
+		r = len(ms)
+	}
+	for i := 0; i < r; i++ {
+		b := ms[i].Buffers[0]
+		w.wire = append(w.wire, int(b[0])<<8|int(b[1]))
+	}
+	return r, nil
+}
+
+func (w *udpScript) ReadBatch(ms []ipv4.Message, flags int) (int, error) {
+	w.mu.Lock()
+	k := w.rcalls
+	w.rcalls++
+	w.mu.Unlock()
+	if k == w.closeAt {
+		w.sess.Close()
+	}
+	if k >= len(w.batches) {
+		return 0, fmt.Errorf("scripted recvmmsg failure")
+	}
+	for i, m := range w.batches[k] {
+		ms[i].N = copy(ms[i].Buffers[0], m.pl)
+		ms[i].Addr = m.addr
+	}
+	return len(w.batches[k]), nil
+}
+
+type udpStrAddr string
+
+func (a udpStrAddr) Network() string { return "udp" }
+func (a udpStrAddr) String() string  { return string(a) }
+
+func udpIoSession(remote net.Addr, conv uint32) (*UDPSession, *net.UDPConn) {
+	cc, err := net.ListenUDP("udp4", &net.UDPAddr{IP: net.IPv4(127, 0, 0, 1)})
+	if err != nil {
+		panic(err)
+	}
+	before := udpCountStacks("(*UDPSession).defaultReadLoop")
+	s, _ := NewConn4(conv, remote, nil, 0, 0, true, udpPlainConn{cc})
+	// the session's own receive goroutine must have taken the generic path (no batchConn yet)
+	// before the harness installs its scripted batchConn - else it would consume scripted batches too
+	for i := 0; i < 2000 && udpCountStacks("(*UDPSession).defaultReadLoop") <= before; i++ {
+		time.Sleep(100 * time.Microsecond)
+	}
+	return s, cc
+}
+
+func udpCountStacks(fn string) int {
+	buf := make([]byte, 1<<20)
+	for {
+		n := runtime.Stack(buf, true)
+		if n < len(buf) {
+			buf = buf[:n]
+			break
+		}
+		buf = make([]byte, 2*len(buf))
+	}
+	return strings.Count(string(buf), fn+"(")
+}
+
+func TestVerifUDPIo(t *testing.T) {
+	rng := newRng(vSeed() ^ 0x0DE)
+	rep := newReport("UDP-io")
+	lg := newVlog(t, "UDPio.log")
+	defer lg.close()
+	ncase := 150
+	if vThorough() {
+		ncase = 2000
+	}
+	sink, _ := net.ListenUDP("udp4", &net.UDPAddr{IP: net.IPv4(127, 0, 0, 1)})
+	defer sink.Close()
+	// ---- tx: UDPSession.tx called directly with a prepared queue and a scripted kernel
+	for c := 0; c < ncase; c++ {
+		s, cc := udpIoSession(sink.LocalAddr(), uint32(5000+c))
+		L := rng.pick(0, 1, 2, 3, 5, 8, 13, 40)
+		var q []ipv4.Message
+		var sizes []int
+		for i := 0; i < L; i++ {
+			b := make([]byte, 2+rng.intn(60))
+			b[0], b[1] = byte(i>>8), byte(i)
+			q = append(q, ipv4.Message{Buffers: [][]byte{b}, Addr: sink.LocalAddr()})
+			sizes = append(sizes, len(b))
+		}
+		sc := &udpScript{closeAt: -1}
+		rest := L
+		failing := rng.chance(30)
+		for rest > 0 {
+			if failing && rng.chance(30) {
+				sc.resp = append(sc.resp, 0)
+				break
+			}
+			n := 1 + rng.intn(rest)
+			if rng.chance(40) {
+				n = 1 + rng.intn(min(rest, 3))
+			}
+			sc.resp = append(sc.resp, n)
+			rest -= n
+		}
+		s.platform.batchConn = sc
+		p0, b0 := atomic.LoadUint64(&DefaultSnmp.OutPkts), atomic.LoadUint64(&DefaultSnmp.OutBytes)
+		s.tx(q)
+		np, nb := atomic.LoadUint64(&DefaultSnmp.OutPkts)-p0, atomic.LoadUint64(&DefaultSnmp.OutBytes)-b0
+		werr := 0
+		select {
+		case <-s.chSocketWriteError:
+			werr = 1
+		default:
+		}
+		lg.printf("TX q=%s rs=%s wire=%s npkts=%d nbytes=%d err=%d calls=%d\n", udpInts(sizes), udpInts(sc.resp), udpInts(sc.wire), np, nb, werr, sc.calls)
+		// the property's own reading: nothing twice, nothing out of order, nothing skipped; all of it unless the kernel failed
+		rep.Monitors["io_tx_prefix"]++
+		for i, id := range sc.wire {
+			if id != i {
+				rep.violate("io-tx-order", fmt.Sprintf("tx of %d queued datagrams with the kernel accepting %v per call: datagram %d was written at position %d (a datagram sent twice, skipped or out of order)", L, sc.resp, id, i),
+					map[string]any{"test": "TestVerifUDPIo", "queue": sizes, "responses": sc.resp, "wire": sc.wire})
+				break
+			}
+		}
+		if werr == 0 && len(sc.wire) != L {
+			rep.violate("io-tx-incomplete", fmt.Sprintf("tx of %d queued datagrams with the kernel accepting %v per call and no error: %d were written", L, sc.resp, len(sc.wire)),
+				map[string]any{"test": "TestVerifUDPIo", "queue": sizes, "responses": sc.resp, "wire": sc.wire})
+		}
+		rep.Distribution[fmt.Sprintf("io_tx_calls_%d", min(sc.calls, 6))]++
+		s.Close()
+		cc.Close()
+		rep.Cases++
+		if sc.calls > 1 {
+			rep.Nontrivial++
+		}
+	}
+	// ---- rx: UDPSession.readLoop run on scripted batches
+	for c := 0; c < ncase; c++ {
+		src := &net.UDPAddr{IP: net.IPv4(10, 0, 0, 1), Port: 4000}
+		addrs := []net.Addr{
+			src,
+			&net.UDPAddr{IP: net.IPv4(10, 0, 0, 1), Port: 4000},                    // equal, another object
+			&net.UDPAddr{IP: net.ParseIP("::ffff:10.0.0.1"), Port: 4000},           // equal in 16-byte form
+			&net.UDPAddr{IP: net.IPv4(10, 0, 0, 1), Port: 4001},                    // other port
+			&net.UDPAddr{IP: net.IPv4(10, 0, 0, 2), Port: 4000},                    // other host
+			&net.UDPAddr{IP: net.IPv4(10, 0, 0, 1), Port: 4000, Zone: "eth0"},      // other zone
+			udpStrAddr("10.0.0.1:4000"),                                            // prints alike, not a UDP address
+		}
+		mode := rng.intn(3) // 0: UDP remote, 1: remote of another type (string comparison), 2: no remote (learned)
+		var remote net.Addr = src
+		if mode == 1 {
+			remote = udpStrAddr("10.0.0.1:4000")
+		} else if mode == 2 {
+			remote = nil
+		}
+		conv := uint32(9000 + c)
+		s, cc := udpIoSession(remote, conv)
+		s.SetWindowSize(32, 4096)
+		sc := &udpScript{closeAt: -1, sess: s}
+		if rng.chance(15) {
+			sc.closeAt = rng.intn(4)
+		}
+		nb := rng.intn(5)
+		id := 0
+		var desc []string
+		for b := 0; b < nb; b++ {
+			var batch []udpScriptMsg
+			for i, n := 0, rng.pick(0, 1, 2, 5, 20); i < n; i++ {
+				ai := rng.intn(len(addrs))
+				if rng.chance(50) {
+					ai = rng.intn(3)
+				}
+				var pl []byte
+				if rng.chance(8) {
+					pl = []byte{} // an empty datagram in the middle of a batch
+				} else {
+					pl = udpSeg(conv, IKCP_CMD_PUSH, 0, 32, 0, uint32(id), 0, []byte{byte(id)})
+				}
+				batch = append(batch, udpScriptMsg{addrs[ai], pl})
+				desc = append(desc, fmt.Sprintf("%d:%d:%d:%d", b, ai, id, len(pl)))
+				id++
+			}
+			sc.batches = append(sc.batches, batch)
+		}
+		s.platform.batchConn = sc
+		e0 := atomic.LoadUint64(&DefaultSnmp.InErrs)
+		s.readLoop() // returns on the scripted failure (or when it finds the session closed)
+		refused := atomic.LoadUint64(&DefaultSnmp.InErrs) - e0
+		var got []int
+		s.mu.Lock()
+		s.kcp.rcv_queue.ForEach(func(seg *segment) bool { got = append(got, int(seg.sn)); return true })
+		for _, seg := range s.kcp.rcv_buf.segments {
+			got = append(got, int(seg.sn))
+		}
+		s.mu.Unlock()
+		sortInts(got)
+		lg.printf("RX mode=%d close=%d msgs=%s got=%s refused=%d\n", mode, sc.closeAt, udpStrs(desc), udpInts(got), refused)
+		rep.Distribution[fmt.Sprintf("io_rx_mode_%d", mode)]++
+		s.Close()
+		cc.Close()
+		rep.Cases++
+		if id > 3 {
+			rep.Nontrivial++
+		}
+	}
+	rep.write(t, "UDPio.report.json")
+	for _, v := range rep.Violations {
+		t.Logf("violation %s: %s", v.Key, v.What)
+	}
+}
+
+func udpInts(xs []int) string {
+	if len(xs) == 0 {
+		return "-"
+	}
+	var b bytes.Buffer
+	for i, x := range xs {
+		if i > 0 {
+			b.WriteByte(',')
+		}
+		fmt.Fprintf(&b, "%d", x)
+	}
+	return b.String()
+}
+
+func udpStrs(xs []string) string {
+	if len(xs) == 0 {
+		return "-"
+	}
+	return strings.Join(xs, ",")
+}
+
+func sortInts(xs []int) { sort.Ints(xs) }
 
 // ---------------------------------------------------------------- tests
 
